@@ -2,11 +2,12 @@
 import argparse, fcntl, glob, hashlib, json, os, re, shutil, subprocess, sys, time
 
 VERIF = os.path.dirname(os.path.dirname(os.path.abspath(__file__)))
-REPO = "/repo"
+REPO = os.environ.get("VERIF_REPO", "/repo")
 WORK = os.path.join(VERIF, ".work")
 COQ = os.path.join(VERIF, "coq")
 HARNESS = os.path.join(VERIF, "harness")
 BIN = os.path.join(WORK, "bin", "harness")
+ALT_MOD = os.path.join(WORK, "go.alt.mod")
 REPLAYS = os.path.join(VERIF, ".replay")
 
 GOENV = dict(os.environ, GOFLAGS="-mod=mod", GOPROXY="off", GOSUMDB="off", GOTOOLCHAIN="local",
@@ -53,12 +54,15 @@ def load_meta(pid):
 
 
 def load_known(pid):
-    p = os.path.join(VERIF, "known_findings.json")
-    if not os.path.exists(p):
-        return []
-    with open(p) as f:
-        data = json.load(f)
-    return [e for e in data.get("findings", []) if e.get("property") == pid]
+    out = []
+    paths = [os.path.join(VERIF, "known_findings.json")] + sorted(glob.glob(os.path.join(VERIF, "known_findings.d", "*.json")))
+    for p in paths:
+        if not os.path.exists(p):
+            continue
+        with open(p) as f:
+            data = json.load(f)
+        out += [e for e in data.get("findings", []) if e.get("property") == pid]
+    return out
 
 
 def build_harness(tags="verif all"):
@@ -71,12 +75,26 @@ def build_harness(tags="verif all"):
             shutil.copy(src, dst)
     except FileNotFoundError:
         shutil.copy(src, dst)
-    rc, out, to = sh(["go", "build", "-tags", tags, "-o", BIN, "."], cwd=HARNESS, timeout=1800)
+    cmd = ["go", "build", "-tags", tags, "-o", bin_path(tags)]
+    if REPO != "/repo":
+        # development/mutation runs against a scratch worktree: same go.mod with the replace target changed
+        mod = open(os.path.join(HARNESS, "go.mod")).read().replace("=> /repo", "=> " + REPO)
+        with open(ALT_MOD, "w") as f:
+            f.write(mod)
+        shutil.copy(src, ALT_MOD[:-4] + ".sum")
+        cmd += ["-modfile=" + ALT_MOD]
+    rc, out, to = sh(cmd + ["."], cwd=HARNESS, timeout=1800)
     return rc == 0, out
 
 
-def run_gen():
-    rc, out, to = sh([BIN, "gen", "-repo", REPO, "-out", os.path.join(COQ, "Gen")], timeout=600)
+def bin_path(tags):
+    if tags == "verif all":
+        return BIN
+    return BIN + "-" + re.sub(r'[^a-z0-9]+', "-", tags)
+
+
+def run_gen(tags="verif all"):
+    rc, out, to = sh([bin_path(tags), "gen", "-repo", REPO, "-out", os.path.join(COQ, "Gen")], timeout=600)
     if rc != 0:
         return None, out
     try:
@@ -154,11 +172,13 @@ def print_assumptions(pid, meta, workdir):
     return res
 
 
-def forbidden_scan():
+def forbidden_scan(only=None):
     """grep the development for declarations that would add an axiom or switch off a check."""
     bad = []
     pat = re.compile(r'\b(Admitted|admit|Axiom|Axioms|Parameter|Parameters|Conjecture|Unset Guard Checking|bypass_check|Admit Obligations|Unset Positivity Checking|Unset Universe Checking|native_compute)\b')
     for path in glob.glob(os.path.join(COQ, "**", "*.v"), recursive=True):
+        if only and not (os.sep + "Lib" + os.sep in path or only in os.path.basename(path)):
+            continue
         with open(path, errors="replace") as f:
             txt = f.read()
         # strip comments (non-nested approximation good enough for a scan: remove (* ... *) greedily by nesting)
@@ -234,6 +254,7 @@ def main(argv):
     ap.add_argument("--replay", default="")
     ap.add_argument("--keep", action="store_true", help="keep the work directory")
     ap.add_argument("--tags", default="verif all", help="(development) harness build tags")
+    ap.add_argument("--dev", action="store_true", help="(development) restrict the forbidden-vernacular scan to Lib/ and this property's files")
     a = ap.parse_args(argv)
     pid = a.id
     t0 = time.time()
@@ -254,7 +275,7 @@ def main(argv):
         if not ok:
             broken.append({"kind": "harness-build", "name": "go build -tags verif (harness against /repo)", "detail": out[-2500:]})
         else:
-            gen_report, out = run_gen()
+            gen_report, out = run_gen(a.tags)
             if gen_report is None:
                 broken.append({"kind": "translator", "name": "harness gen", "detail": out[-2500:]})
             else:
@@ -273,7 +294,7 @@ def main(argv):
                 thm = theorem_at(os.path.join(COQ, err["file"].lstrip("./")), err["line"])
             broken.append({"kind": "proof", "name": "%s (%s line %s)" % (thm or "?", err["file"], err["line"]), "detail": err["message"]})
 
-    forbidden = forbidden_scan()
+    forbidden = forbidden_scan(pid if a.dev else None)
     if forbidden:
         broken.append({"kind": "forbidden", "name": "axiom-introducing or check-disabling vernacular", "detail": "; ".join(forbidden[:20])})
 
@@ -289,7 +310,7 @@ def main(argv):
     drv_out = ""
     if stages.get("harness_build") == "ok":
         tmo = meta.get("timeouts", {}).get(a.tier, 900 if a.tier == "quick" else 7200)
-        cmd = [BIN, "run", "-id", pid, "-seed", str(a.seed), "-tier", a.tier, "-out", workdir,
+        cmd = [bin_path(a.tags), "run", "-repo", REPO, "-id", pid, "-seed", str(a.seed), "-tier", a.tier, "-out", workdir,
                "-corpus", os.path.join(VERIF, "corpus", pid)]
         if a.replay:
             cmd += ["-replay", os.path.abspath(a.replay)]
